@@ -187,7 +187,11 @@ func DecodeIdFromList(cborData []byte) (int, error) {
 	if listLen == 0 {
 		return 0, errors.New("cannot return first item from empty list")
 	}
-	if listLen < int(CborMaxUintSimple) {
+	// The shortcut is only valid when the list header is the single-byte
+	// form, so that the first element starts at offset 1. With a non-minimal
+	// header (0x98..0x9b) byte 1 is part of the length, not the first element
+	if cborData[0] >= CborTypeArray &&
+		cborData[0] <= (CborTypeArray+CborMaxUintSimple) {
 		if cborData[1] <= CborMaxUintSimple {
 			return int(cborData[1]), nil
 		}
